@@ -29,6 +29,10 @@ pub fn enabled<P: Proto>(w: &ClientWorld<P>, cfg: &Cfg) -> Vec<(CAct, u8)> {
         // the rest of a half-written packet arrives, or the connection fails
         v.push((CAct::Rest, 0));
         v.push((CAct::Fail, 1));
+        if cfg.prop == "C18" {
+            // ... or nothing more arrives and time passes
+            v.push((CAct::T(1000), 0));
+        }
         return v;
     }
     match cfg.prop.as_str() {
@@ -231,6 +235,11 @@ pub fn enabled<P: Proto>(w: &ClientWorld<P>, cfg: &Cfg) -> Vec<(CAct, u8)> {
                     v.push((CAct::T(1000), 0));
                     v.push((CAct::T(500), 0));
                     v.push((CAct::B(Pk::ConnAck { sp: false, code: 0, recv_max: None, server_ka: None }), 0));
+                    // half a CONNACK and then silence; something that is not a CONNACK; the
+                    // broker closing the transport in the middle of the handshake
+                    v.push((CAct::Partial(Pk::ConnAck { sp: false, code: 0, recv_max: None, server_ka: None }, 2), 0));
+                    v.push((CAct::B(Pk::PingResp), 0));
+                    v.push((CAct::Fail, 0));
                 }
                 if connected && healthy && !w.mon.connect_seen_unanswered && w.mon.connections() > 0 {
                     // established after all: keep-alive applies from here on
